@@ -188,6 +188,7 @@ func (s *session) refLoop() {
 
 		select {
 		case t := <-s.refCh:
+			verifRef(s, "ref", t.vid, t.files, nil)
 			if _, exist := ref[t.vid]; exist {
 				panic("duplicate reference request")
 			}
@@ -197,6 +198,7 @@ func (s *session) refLoop() {
 			}
 
 		case d := <-s.deltaCh:
+			verifRef(s, "delta", d.vid, nil, d)
 			if _, exist := ref[d.vid]; !exist {
 				if _, exist2 := referenced[d.vid]; !exist2 {
 					panic("invalid release request")
@@ -209,6 +211,7 @@ func (s *session) refLoop() {
 			deltas[d.vid] = d
 
 		case t := <-s.relCh:
+			verifRef(s, "rel", t.vid, t.files, nil)
 			if _, exist := referenced[t.vid]; exist {
 				for _, tt := range t.files {
 					for _, t := range tt {
@@ -228,6 +231,7 @@ func (s *session) refLoop() {
 			delete(ref, t.vid)
 
 		case id := <-s.abandon:
+			verifRef(s, "abandon", id, nil, nil)
 			if id >= next {
 				abandoned[id] = struct{}{}
 			}
@@ -291,6 +295,7 @@ func (s *session) setVersion(r *sessionRecord, v *version) {
 		// Release current version.
 		s.stVersion.releaseNB()
 	}
+	verifSetVersion(s, r, s.stVersion, v)
 	s.stVersion = v
 }
 
@@ -408,6 +413,7 @@ func (s *session) newManifest(rec *sessionRecord, v *version) (err error) {
 		return
 	}
 	jw := journal.NewWriter(writer)
+	verifTrace(s, "mf:new", fd.Num, s.manifestFd.Num, verifB(rec == nil))
 
 	if v == nil {
 		v = s.version()
@@ -461,6 +467,7 @@ func (s *session) newManifest(rec *sessionRecord, v *version) (err error) {
 			return
 		}
 	}
+	verifGate(s, "mf:before-setmeta")
 	err = s.stor.SetMeta(fd)
 	return
 }
